@@ -86,6 +86,17 @@ type (
 
 // Validate implements custom validation for Spec
 func (spec Spec) Validate() error {
+	for _, p := range spec.Policies {
+		if p.LimitRefreshPeriod == "" {
+			continue
+		}
+		// the format is checked by the schema, a refresh period which is
+		// not positive makes the limiter divide by zero.
+		if d, _ := time.ParseDuration(p.LimitRefreshPeriod); d <= 0 {
+			return fmt.Errorf("policy '%s': limitRefreshPeriod must be positive", p.Name)
+		}
+	}
+
 URLLoop:
 	for _, u := range spec.URLs {
 		name := u.PolicyRef
